@@ -21,7 +21,7 @@ REQUIRED = [
                                             "delta1d_eq_gen", "shape_facts", "stack_new_eq_gen", "stack_axis_eq",
                                             "stack_time_axis_eq", "stack_rem_eq", "stack_pad_before_eq", "stack_pad_after_eq",
                                             "stack_T_padded_eq", "stack_nT_eq", "stack_nF_eq", "stack_T_kept_eq",
-                                            "stack_prepare_eq_gen", "stack_pathNd_eq_gen", "stack_shape_facts"]]
+                                            "stack_prepare_eq_gen", "stack_pathNd_eq_gen", "stack_apply_eq_gen", "stack_shape_facts"]]
 
 
 def translate(repo):
